@@ -56,6 +56,23 @@ def run(ctx, ck) -> None:
         cls_param = tu.node.args.args[0].arg
         aux_param = tu.node.args.args[1].arg
         reader_kw = ut == ('call', ('var', cls_param), (), (('**', ('var', aux_param)),))
+        reader_pos = ut == ('call', ('var', cls_param), (('star', ('var', aux_param)),), ())
+        if reader_pos:
+            rets_f = [p for p in function_paths(tf.node) if p.exit == 'return']
+            tt = term(rets_f[0].node.value, path_env(rets_f[0])) if len(rets_f) == 1 else None
+            a = init.node.args
+            pos_params = [p.arg for p in a.args[1:]]
+            if tt is None or tt[0] != 'tuple' or len(tt) != 3 or tt[2][0] != 'tuple':
+                ck.incomplete('J1', tf.node, 'positional aux_data protocol with an aux value that is not a tuple literal', instance=f'{c.name} writer')
+                continue
+            S = ('var', tf.node.args.args[0].arg)
+            elems = tt[2][1:]
+            bad = [(i, show(e), pos_params[i] if i < len(pos_params) else None) for i, e in enumerate(elems) if i >= len(pos_params) or e != ('attr', S, pos_params[i])]
+            detail = f'position {bad[0][0] + 1} receives {bad[0][1]} where `{bad[0][2]}` is expected' if bad else ''
+            ck.expect('J1', not bad, tf.node, f'{c.name}: positional aux_data {[show(e) for e in elems]} lines up with the constructor parameters {pos_params[:len(elems)]}',
+                      f'{c.name}.tree_flatten emits its static data positionally as {[show(e) for e in elems]} and tree_unflatten calls cls(*aux_data), but {init.owner.name}.__init__ takes {pos_params}: '
+                      f'{detail} - the round trip builds a different landscape (or raises)', instance=f'{c.name} positional aux order')
+            continue
         if not reader_kw:
             ck.incomplete('J1', tu.node, f'tree_unflatten is {show(ut)}, not cls(**aux_data)', instance=f'{c.name} reader')
             continue
